@@ -9,7 +9,7 @@ prop("C06", "exploration",
      "verification callback inside setup and fails if that fails, as hopclient.setupTargetClient does), a target behaviour per "
      "forwarded intent (scripted: confirm / deny(reason) / close / garbage+close / close mid-message; or the real "
      "StartTargetInstance with recording checkIntent/addAuthGrant stubs that accept / refuse / fail to store), and optionally a "
-     "malformed message after the last request. The real StartPrincipalInstance runs over net.Pipe connections inside a synctest "
+     "malformed message after the last request. The real StartPrincipalInstance runs over buffered in-memory connections inside a synctest "
      "bubble; request bytes come from an encoder written from the wire layout, answers are parsed by the harness. Oracle per "
      "request: no byte is written on a target connection without an earlier accepting callback invocation for that request, none "
      "at all if the callback refused; forwarded bytes decode to the approved and to the requested intent field for field; the "
